@@ -34,7 +34,7 @@ def generate(seed, tier, k):
         gen.add_faults(doc, seed, p_fault=1.0)
     nsub = sum(len(s["ramp"][0]["values"]) for s in doc["steps"])
     doc["c15"] = {
-        "x0": r.random() < 0.15,
+        "x0": r.choice([False] * 5 + [True, "separate"]),
         "restart_after": r.randrange(nsub) if (mode == 0 and r.random() < 0.5 and nsub > 1) else None,
         "restart_drop_state": r.random() < 0.5,
         "refine": mode == 1 and r.random() < 0.6,
@@ -74,7 +74,7 @@ def model_ext0(w, j, i, dof0):
     full = {}
     name_of = {id(b): n for n, b in w.ramp_bc.items()}
     for bname, b in w.steps[j].boundaries.items():
-        k = [q for q, f in enumerate(fields) if f is b.field][0]
+        k = ([q for q, f in enumerate(fields) if f is b.field] or [q for q, f in enumerate(w.top.fields) if f is b.field])[0]
         tgt = "bc:" + name_of.get(id(b), "\0")
         v = cur.get(tgt, None)
         if v is None:
@@ -302,10 +302,31 @@ def simulate(doc, log, monitors=True, until=None):
     eng = jobsim.Engine(w, doc, log, monitors=[mon] if monitors else [])
     holder["eng"] = eng
     kw = {}
-    if doc.get("c15", {}).get("x0"):
+    if doc.get("c15", {}).get("x0") == "separate":
+        kw["x0"] = w.toplevel_field()
+        log.count("x0-toplevel-container")
+    elif doc.get("c15", {}).get("x0"):
         kw["x0"] = w.field
+    x0_start = [f.values.copy() for f in kw["x0"].fields] if "x0" in kw else None
     with eng:
         job, exc = eng.run_job(**kw)
+    if "x0" in kw and kw["x0"] is not w.field and monitors:
+        # a separate x0 container is only touched by the job (linked after each converged substep;
+        # the items' own container follows every Newton iterate): it holds the last converged
+        # state, also when a later substep failed
+        last = [c for c in eng.history if c["outcome"] == "returned"]
+        if last:
+            cands = [[f.values for f in last[-1]["res"].x.fields]]
+            if len(last) > 1:
+                # a substep whose callback raised has converged but was not handed over yet
+                cands.append([f.values for f in last[-2]["res"].x.fields])
+            else:
+                cands.append(x0_start)
+            got = [f.values for f in kw["x0"].fields]
+            if not any(all(np.array_equal(a, b) for a, b in zip(got, c)) for c in cands[: 2 if exc is not None else 1]):
+                dmax = max(float(np.abs(a - b).max()) for a, b in zip(got, cands[0]))
+                raise Violation(PROP, "start-state", f"after the job the caller's x0 does not hold the last converged state (max diff {dmax:.3e})", site="Job.evaluate.x0")
+            log.count("x0-after-job-checked")
     return eng, exc, mon
 
 
@@ -558,11 +579,17 @@ def retry_check(doc, eng, exc, log):
     kw = {k: v for k, v in doc.get("newton", {}).items() if k in ("tol", "maxiter")}
     results = []
     failed_kind = ",".join(sorted({f["kind"] for f in eng.fired}))
+    if w.top is not None:
+        for f, v in zip(w.top.fields, last):
+            f.values = np.array(v, copy=True)
+        kw["x0"] = w.top
     try:
         for s in rest:
             step = w._build_step(s)
             for res in step.generate(verbose=False, **kw):
                 results.append(res)
+                if w.top is not None:
+                    w.top.link(res.x)  # what Job.evaluate does after every converged substep
     except ValueError as e:
         raise Violation(PROP, "retry-after-failure", f"after a failed substep ({failed_kind}) the history cannot be continued on the same objects from the last converged state: {e}", site="+".join(sorted({it["type"] for it in doc["items"]})), fault=failed_kind)
     tail = eng2.callbacks[ncb:]
